@@ -21,6 +21,11 @@ CLAIMS = {
          "so by subMono the world never withholds an event from a Dispatch that a sub-listener selects; Dispatch.Notify is proved, by loop invariant over ghost notification counters, to call Notify on sub-listener k exactly when the rule selects the event for k, with the unchanged event; Callback accessors return the configured restriction.",
          TRUST + " Listener.Subscriptions/Components are modelled as pure functions of the listener (A4); sub-listeners of one Dispatch are assumed pairwise distinct objects; Callback.Notify (a call through a func value) is not under contract. The world-side trigger computation at each notification site is checked under C11.",
          "contract-based deductive verification: WP/symbolic execution over go/ssa, obligations discharged by z3/cvc5"),
+ "C09": ("(1) bit pool and lock mask are proved against a ghost permutation view: Lock returns a bit that was not set and sets exactly it, Unlock panics unless the bit is set and clears exactly it, IsLocked iff some bit is set, the limit panic happens exactly at 256 (64 tiny) simultaneously held bits, Reset empties; all preserve lockInv (both builds). "
+         "(2) The lock rule: every exported function or method of packages ecs and generic from which a structural sink (entity pool, table storage, graph, registry, target bits) is reachable in the static call graph is enumerated mechanically (243 entry points today) and for each govc proves, with no annotation on the function: if the world is locked at entry, no world state is written before any exit - in particular before the 'locked world' panic; the proof is modular (calls to other entry points use their proved rule). "
+         "(3) World.componentID is proved to restore the registry exactly (regSame) when a registration is attempted under lock.",
+         TRUST + " World state = memory owned by World/tables/graph/pool/registry; the lock mask itself, resources (C20), the filter cache and listener slot are not structural state (listed in evidence). Exempt entry points (resource registration, NewWorld) are listed with reasons. Open/close pairing of queries (each open query releases its bit exactly once) is not yet under contract.",
+         "contract-based deductive verification: WP/symbolic execution over go/ssa with SMT-checked path feasibility, obligations discharged by z3/cvc5"),
 }
 
 NA = {
